@@ -1,5 +1,7 @@
 import NdnProofs.Props.C07
 import NdnGen.C07
+import NdnProofs.Props.TlvVarGen
+import NdnGen.TlvVar
 #print axioms Ndn.C07.parse_total
 #print axioms Ndn.C07.decodePacket_error_classes
 #print axioms Ndn.C07.shipped_decoders_error_classes
@@ -23,3 +25,6 @@ import NdnGen.C07
 #print axioms Ndn.C07.packet_accept_iff_strict
 #print axioms Ndn.C07.shipped_decoders_strict
 #print axioms Ndn.C07.shipped_only_overruns_differ
+#print axioms Ndn.TlvVarGen.all_translated
+#print axioms Ndn.TlvVarGen.parse_tl_num_eq
+#print axioms Ndn.TlvVarGen.parse_and_check_tl_eq
